@@ -824,6 +824,8 @@ def _run(res):
             for combo in itertools.product(range(len(al)), repeat=n):
                 if n == L and quick and (combo[0] % 5) not in (0, 2):
                     continue      # quick tier: full-length histories start with a write
+                if n == 4 and (combo[0] % 5) not in (0, 2):
+                    continue      # depth 4 (thorough): histories that start with a write (a third of them)
                 ops = props_ops() + [o for c in combo for o in al[c]]
                 batch.append((cfg, ops))
         a, d, _r = check_batch(res, batch, "exhaustive")
